@@ -169,6 +169,14 @@ class Harness:
             self.p = None
 
     def req(self, obj, timeout=None):
+        """One request.  With the default limit, a time-out is tried once more with a generous limit: on a loaded
+        machine (other checks, TLC with 8 workers) a 10 s silence is not a hang; only a reproduced one is reported."""
+        r = self._req(obj, timeout)
+        if timeout is None and r.get("crash") == "timeout":
+            r = self._req(obj, max(120.0, 12 * self.timeout))
+        return r
+
+    def _req(self, obj, timeout=None):
         if self.p is None or self.p.poll() is not None:
             self._start()
         self.n += 1
